@@ -342,7 +342,7 @@ Section Served.
   (** backend.propFindFile reduced to the observed properties *)
   Definition entry_of (values : bool) (href : string) (n : node) : ms_entry :=
     match n with
-    | Dir _ => {| me_href := href; me_dir := values; me_clen := ""; me_etag := ""; me_lastmod := false; me_values := values |}
+    | Dir _ => {| me_href := href; me_dir := values; me_clen := ""; me_etag := ""; me_lastmod := true; me_values := values |}
     | File c m =>
       {| me_href := href; me_dir := false;
          me_clen := if values then dec (strlen c) else "";
